@@ -91,7 +91,6 @@ class DatReader(TableReaderBase):
     splitre = re.compile(r'\s+')
     results = []
     for line in fileobj:
-      line = line[:-1]
       line = line.strip()
       if len(line) == 0 or line[0] == '#':
         continue
